@@ -211,6 +211,9 @@ class Ctx:
             else:
                 viol.append(r)
         os.makedirs(REPLAYS, exist_ok=True)
+        for fn in os.listdir(REPLAYS):
+            if fn.startswith("%s-%s-" % (self.pid, self.tier)):
+                os.unlink(os.path.join(REPLAYS, fn))
         lines = []
         for k, rs in sorted(kf.items()):
             lines.append("KNOWN-FINDING: property=%s %s: %s (%d traces this run)" % (
